@@ -353,7 +353,27 @@ def run_sums(case, r, prop, m, pt):
     return r
 
 
+# fixed deep cases: fourth order is the first at which the quadratic term
+# S(2) S(2) of the S^-1/2 series enters the intermediate states
+_D = {"nc": None, "na": None, "subtract_gs": False, "lr": "left", "adc": 0,
+      "sum_order": None, "size": [2, 2], "singles": False, "order": 4}
+DEEP = [
+    dict(_D, lv="ip", rv="ip", kind="tm", sp1="h", sp2="h", mseed=11),
+    dict(_D, lv="ea", rv="ea", kind="tm", sp1="p", sp2="p", mseed=12,
+         subtract_gs=True),
+    # thorough tier only (minutes)
+    dict(_D, lv="ea", rv="ea", kind="expec", sp1="p", sp2="p", nc=1, na=1,
+         subtract_gs=True, mseed=13),
+    dict(_D, lv="ip", rv="ip", kind="expec", sp1="h", sp2="h", nc=1, na=1,
+         mseed=14),
+]
+
+
 def run_shard(col, shard, nshards, seed, tier):
+    if shard < (2 if tier == "quick" else len(DEEP)):
+        saved, col.case_timeout = col.case_timeout, None
+        col.run(dict(DEEP[shard]), run_case)
+        col.case_timeout = saved
     drive(strategy(tier), run_case, N_EXAMPLES[tier], seed * 1000 + shard,
           col)
 
